@@ -164,8 +164,12 @@ func verifC07(kind int, collide bool, ops []int) {
 		ttlC = verifInt64("ctxTTL")
 		ctx = WithTTL(ctx, time.Duration(ttlC), false)
 	}
-	if op == 0 && verifBool("withSkipRead") {
+	// SkipRead concerns reads only: a Write or Delete made with such a context behaves as without it
+	if (op == 0 || op == 1 || op == 2) && verifBool("withSkipRead") {
 		ctx = WithSkipRead(ctx)
+	}
+	if op == 2 && verifBool("deleteWithTTLContext") {
+		ctx = WithTTL(ctx, time.Duration(verifInt64("ctxTTL")), false)
 	}
 	var newVal interface{}
 	if op == 1 || op == 8 {
